@@ -15,7 +15,7 @@ func TestMeta(t *testing.T) {
 	if out == "" || e == nil {
 		t.Skip()
 	}
-	b, _ := json.Marshal(map[string]any{"rule": e.Rule, "components": e.Components, "assumptions": e.Assumptions})
+	b, _ := json.Marshal(map[string]any{"property": e.Property, "level": e.Level, "rule": e.Rule, "components": e.Components, "assumptions": e.Assumptions})
 	if err := os.WriteFile(out, b, 0o644); err != nil {
 		t.Fatal(err)
 	}
